@@ -855,6 +855,27 @@ LONG_ORIGINS = [LONG_, LONG_ + '.evil.example', LONG_[:-1], LONG_[:300] + 'x' + 
 assert len(LONG_) > 300
 
 
+MANY = 1500
+
+
+def _expand_cfg(cfg):
+    """A compact configuration with `many`: N generated tenant origins in front of the listed ones (every second one with
+    credentials)."""
+    n = cfg.get('many')
+    if not n:
+        return cfg
+    tenants = ['https://tenant-%d.example' % i for i in range(n)]
+    out = dict(cfg)
+    out.pop('many')
+    out['ao'] = tenants + list(cfg['ao'])
+    out['ac'] = tenants[::2] + list(cfg['ac'] or [])
+    return out
+
+
+MANY_ORIGINS = ['https://tenant-0.example', 'https://tenant-1.example', 'https://tenant-%d.example' % (MANY - 1), 'https://tenant-%d.example' % (MANY - 2),
+                'https://tenant-%d.example' % MANY, 'https://tenant-64.example', 'https://tenant-257.example', 'https://tenant-1.example.evil.example', A_]
+
+
 class RequestHistory(_StaticDirMixin, Suite):
     """One app instance (one CORS component instance) serves a HISTORY of 2-5 requests with different origins and kinds
     (credentialed origin first and a merely allowed one afterwards, preflights between simple requests, ...): every response
@@ -873,6 +894,10 @@ class RequestHistory(_StaticDirMixin, Suite):
         n_plain = len(cfgs)
         cfgs += [({'ao': [LONG_, A_], 'ac': [LONG_], 'eh': 'X-One'}, 'mw', 'alone'), ({'ao': LONG_, 'ac': None, 'eh': None}, 'mw', 'between'),
                  ({'ao': [A_, LONG_ + '.evil.example'], 'ac': [A_], 'eh': None}, 'mw', 'alone')]
+        n_long = len(cfgs)
+        # a policy that lists 1500 origins (every second one with credentials)
+        cfgs += [({'ao': [A_], 'ac': [A_], 'eh': 'X-One', 'many': MANY}, 'mw', 'alone'),
+                 ({'ao': [B_], 'ac': None, 'eh': None, 'many': MANY, 'container': 'frozenset'}, 'mw', 'between')]
 
         def mk(origin, kind, split):
             rq = {'origin': origin, 'method': kind[0], 'acrm': kind[1], 'acrh': kind[2]}
@@ -885,18 +910,22 @@ class RequestHistory(_StaticDirMixin, Suite):
                        st.sampled_from([None, None, None, None, D_, 'https://x.example']))
         rq_long = st.builds(mk, st.sampled_from(LONG_ORIGINS + LONG_ORIGINS[:3] + [A_]), st.sampled_from(CORE_KINDS), st.none())
         plain = st.tuples(st.integers(0, n_plain - 1), st.lists(rq, min_size=2, max_size=5))
-        long_ = st.tuples(st.integers(n_plain, len(cfgs) - 1), st.lists(rq_long, min_size=2, max_size=5))
+        long_ = st.tuples(st.integers(n_plain, n_long - 1), st.lists(rq_long, min_size=2, max_size=5))
+        rq_many = st.builds(mk, st.sampled_from(MANY_ORIGINS), st.sampled_from(CORE_KINDS), st.none())
+        many_ = st.tuples(st.integers(n_long, len(cfgs) - 1), st.lists(rq_many, min_size=2, max_size=5))
         return st.builds(
             lambda ci_rqs, cell, stack, late: (lambda ci, rqs: {
                 'app': {'stack': stack, 'late': late if cfgs[ci][1] == 'flag' else None, 'via': cfgs[ci][1], 'cfg': cfgs[ci][0], 'before': SURROUND[cfgs[ci][2]][0],
                         'after': SURROUND[cfgs[ci][2]][1], 'target': cell[0], 'allow': cell[1], 'outcome': cell[2]},
                 'rqs': rqs})(*ci_rqs),
-            st.one_of(plain, plain, plain, long_), st.sampled_from(TARGET_CELLS), st.sampled_from(['wsgi', 'asgi']),
+            st.one_of(plain, plain, plain, plain, plain, plain, long_, long_, many_), st.sampled_from(TARGET_CELLS), st.sampled_from(['wsgi', 'asgi']),
             st.sampled_from([None, [['cors_rejected'], ['plain']], [['plain'], ['cors_rejected'], ['plain', 2]], [['cors_rejected']],
                              [['cors_rejected'], ['cors_rejected'], ['plain']]]))
 
     def run(self, case):
         app_d = case['app']
+        if app_d['cfg'].get('many'):
+            app_d = dict(app_d, cfg=_expand_cfg(app_d['cfg']))
         cfg = app_d['cfg']
         shared, _ = build_app(app_d, 'cors', self._dir)
         base_app, _ = build_app(app_d, 'none', self._dir)
